@@ -142,14 +142,18 @@ class C05(Property):
                   "resources are exclusive, created = idle + held <= limit, expired idle resources are destroyed and "
                   "uncounted. Tied to the Go code by forced schedules (controller gates + quiescence detection) through "
                   "the public entry points (mr.ForEach/MapReduce/MapReduceVoid/MapReduceChan/Finish/FinishVoid, "
-                  "fx.Walk/Parallel/Map/Filter, WorkerGroup.Start, MaxConnsHandler incl. n <= 0), one or two instances "
-                  "at once; worker-count constants are re-extracted from the source on every run.")
+                  "fx.Walk/Parallel/Map/Filter, WorkerGroup.Start, MaxConnsHandler incl. n <= 0 - bare, behind hijackable "
+                  "writers, and as configured in a rest.Server whose routes the engine itself binds: one latch per route, "
+                  "Engine.v), one or several instances at once; the monitors of the observed logs are proved to bound the "
+                  "in-region count at every prefix; worker-count constants are re-extracted from the source and the "
+                  "refusal status / create-panic behaviour re-observed by probes on every run.")
     level_note = ("Trusted: Coq kernel + vm_compute; hand-written LTS (one action per channel operation / mutex "
                   "section); atomicity assumption; gate-level control cannot stop between library-internal actions; "
                   "timers of TimeoutLimit are fired in the correspondence only for zero timeouts; mr cancel()/context "
                   "are covered by the free-running gauge only.")
     rule = ("cases: n 0..4 and 2000, 1..6 threads, scripts up to 5 calls (Limit: Borrow/TryBorrow/Return; TimeoutLimit: "
-            "Borrow long/zero/negative timeout, TryBorrow, Return; MaxConns: requests whose handler returns or panics, request contexts cancelled while the handler stays inside, n <= 0 = no limit; "
+            "Borrow long/zero/negative timeout, TryBorrow, Return; MaxConns: requests whose handler returns or panics, request contexts cancelled while the handler stays inside, n <= 0 = no limit, "
+            "handlers that hijack the connection and Close() it any number of times, and the same through a rest.Server (RestConf.MaxConns, 1-3 routes, server.Use / route middlewares, Timeout+Recover or a user chain) with concurrent first requests; "
             "TaskRunner: Schedule/ScheduleImmediately/Wait, tasks return or panic; Pool: Get/Put/Put(nil)/advance clock with "
             "max-age; mr/fx entry points with WithWorkers(n) for n <= 0 too, default and unlimited workers; WorkerGroup), "
             "one or two instances at once, forced schedule = list of actor ids; non-trivial = some thread was refused or "
@@ -160,6 +164,7 @@ class C05(Property):
         "core/syncx/verif_c05_hooks.go is ADDED at build time (decorates the Pool's own mutex to log the order of lock acquisitions)",
         "quiescence detection via runtime.Stack decides 'blocked'; atomicity assumed (race-checked free runs in the thorough tier)",
         "Go runtime (channels, sync.Cond, WaitGroup, net/http/httptest) is not modelled",
+        "obj engine: requests are served by the router the rest engine bound (Server.StartWithOpts with an unusable listen address), on the caller's goroutine, with an in-memory hijackable writer - no TCP",
     ]
     assumptions = ["well-formed holders: a thread returns only permits / resources it holds (the theorems state this as "
                    "lrogue = false / scripts that Put what they got; discharged for statically balanced scripts)",
